@@ -5,6 +5,7 @@ import FlexVerif.Driver.Trace
 import FlexVerif.Driver.TblCmd
 import FlexVerif.Validator.Useful
 import FlexVerif.M4.Quote
+import FlexVerif.Driver.OptCmd
 namespace FlexVerif
 
 def showLabel : Option (List Int) → String
@@ -33,6 +34,7 @@ partial def readLines (h : IO.FS.Stream) (acc : Array String) : IO (Array String
 
 def mainImpl (args : List String) : IO UInt32 := do
   match args with
+  | "optrun" :: _ => cmdOptRun
   | "validate" :: path :: rest =>
     let lines ← IO.FS.lines path
     let c := Case.ofLines lines
